@@ -571,6 +571,17 @@ def do_replay(ctx):
 
 
 # ------------------------------------------------------------------ main
+def prebuild(ctx):
+    """setup: compile the session-3 static files and the observed tables once (content-keyed reuse afterwards)"""
+    from vlib import c06_x as CX
+    CX.generate()
+    g = ctx.coq_build_cached(CX.STATIC_X, deps=CX.DEPS)
+    if g["ok"]:
+        g = ctx.coq_build_parallel(CX.GEN_X, deps=CX.DEPS[:7])
+    if g["ok"]:
+        ctx.coq_build_parallel(["C06/TieEncX.v"], deps=CX.DEPS + CX.STATIC_X + CX.GEN_X)
+
+
 def run(ctx):
     if ctx.replay:
         return do_replay(ctx)
@@ -614,6 +625,17 @@ def run(ctx):
             tpl_err = "observed template tables do not compile: " + str(g.get("out"))[-300:]
     except Exception as e:  # noqa
         tpl_err = f"template export failed: {type(e).__name__}: {e}"[:400]
+    # ---- 1b. extension (session 3): storage / calldata / pre-cancun sources: observed tables, syntactic ties, theorems
+    x_err, x_tie = None, {"ok": True, "skipped": True}
+    if gen_err is None and b["ok"]:
+        try:
+            from vlib import c06_x as CX
+            CX.generate()
+            xg, x_tie = CX.build(ctx)
+            if not xg["ok"]:
+                x_err = "observed template tables (non-cancun-memory sources) do not compile: " + str(xg.get("out"))[-300:]
+        except Exception as e:  # noqa
+            x_err = f"template export (non-cancun-memory sources) failed: {type(e).__name__}: {e}"[:400]
     # ---- 2. generated pairs; spec validation; real ABIType correspondence
     import time
     t0 = time.time()
@@ -651,6 +673,16 @@ def run(ctx):
         except Exception as e:  # noqa  (an observed template that misbehaves badly can make the evaluator run away)
             report(ctx, "correspondence-broken", "running the observed templates in Coq failed",
                    {"error": f"{type(e).__name__}: {e}"[:600]}, "tplrun-error")
+    n_tplx = 0
+    if x_err is None and not x_tie.get("skipped"):
+        t0 = time.time()
+        try:
+            from vlib import c06_x as CX
+            n_tplx = CX.run_templates(ctx, report)
+            ctx.log(f"non-cancun-memory source templates run in Coq: {time.time() - t0:.1f}s")
+        except Exception as e:  # noqa
+            report(ctx, "correspondence-broken", "running the observed storage/calldata/pre-cancun templates in Coq failed",
+                   {"error": f"{type(e).__name__}: {e}"[:600]}, "tplxrun-error")
     found = any(v["kind"] == "failing-input" for v in ctx.violations) or ctx.known_hits
     # ---- verdicts for broken ties / proofs (after Search = the exits + size oracle above)
     if gen_err is not None:
@@ -688,6 +720,27 @@ def run(ctx):
                        "replay": "tools/vlib/c06_tpl.py export_legacy_enc / export_venom_enc on the listed shapes",
                        "search": "observed templates executed in Coq + five exits on the EVM ran" +
                                  ("; failing inputs reported" if found else "; no failing input")})
+    if x_err is not None:
+        ctx.violation("translator-rejected", "encoder template export (storage/calldata/pre-cancun): " + x_err, {"error": x_err})
+    elif not x_tie["ok"]:
+        fl = str(x_tie.get("failed_lemma") or "")
+        if fl.startswith(("tie_enc_", "encx_")):
+            from vlib import c06_x as CX
+            table = "obs_" + fl[4:] if fl.startswith("tie_enc_") else None
+            try:
+                shapes = CX.differing(table) if table in CX.TABLE_OF else []
+            except Exception as e:  # noqa
+                shapes = [f"(could not localise: {e})"]
+            ctx.violation("correspondence-broken", f"{fl}: emitted encoder IR for a source that is not cancun memory differs from "
+                          f"the template model (TplEncX.v) for {len(shapes)} shapes",
+                          {"theorem": fl, "table": table, "shapes": shapes[:16],
+                           "replay": "tools/vlib/c06_tplx.py export_* on the listed shapes",
+                           "search": "observed templates executed in Coq + EVM exits (storage sources, pre-cancun configs) ran" +
+                                     ("; failing inputs reported" if found else "; no failing input")})
+        else:
+            ctx.violation("theorem-broken", f"{fl} in {x_tie.get('file')}",
+                          {"theorem": fl, "file": x_tie.get("file"), "coq_output": (x_tie.get("out") or "")[-1500:],
+                           "search": "EVM exits ran" + ("; failing inputs reported" if found else "; no failing input")})
     for name, got, exp in struct_bad:
         ctx.violation("correspondence-broken", f"encoder source no longer matches the structural model (Venc.v): {name}",
                       {"function": name, "observed": got, "pinned": exp,
@@ -695,7 +748,7 @@ def run(ctx):
     if not zp_ok:
         ctx.violation("correspondence-broken", "core.zero_pad / venom _pre_zero_pad no longer match the templates modelled in ZeroPad.v",
                       {"observed": zp})
-    total = n_spec + n_exit + n_eth + n_reason + n_tpl
+    total = n_spec + n_exit + n_eth + n_reason + n_tpl + n_tplx
     ctx.corr["evaluations"] = total
     ctx.corr["distinct_nontrivial"] = n_exit + n_reason
     ctx.corr["types"] = len(pairs)
